@@ -307,7 +307,14 @@ func runC08(p *an.Prog, r *an.Run, tier string) {
 	bad = nil
 	var svcCalls []ssa.CallInstruction
 	var sends []*ssa.Send
-	for _, fn := range an.WithAnon(rh) {
+	isAcceptChan := func(v ssa.Value) bool {
+		ch, ok := v.Type().Underlying().(*types.Chan)
+		return ok && isNamedType(ch.Elem(), "Node")
+	}
+	// fan: the function holding the fan-out and its collector — requestHosts itself, or a helper it calls
+	fan := rh
+	var fanCall ssa.CallInstruction
+	for _, fn := range regionFuncs(p, rh) {
 		an.AllInstrs(fn, func(in ssa.Instruction) {
 			if c, ok := in.(ssa.CallInstruction); ok && isServiceCall(an.CallObj(c)) {
 				svcCalls = append(svcCalls, c)
@@ -315,11 +322,21 @@ func runC08(p *an.Prog, r *an.Run, tier string) {
 			if s, ok := in.(*ssa.Send); ok {
 				sends = append(sends, s)
 			}
+			if mc, ok := in.(*ssa.MakeChan); ok && isAcceptChan(mc) && fn.Parent() == nil {
+				fan = fn
+			}
 		})
 	}
-	isAcceptChan := func(v ssa.Value) bool {
-		ch, ok := v.Type().Underlying().(*types.Chan)
-		return ok && isNamedType(ch.Elem(), "Node")
+	if fan != rh {
+		for _, c := range an.Calls(rh, false) {
+			if c.Common().StaticCallee() == fan {
+				fanCall = c
+			}
+		}
+		if fanCall == nil {
+			bad = append(bad, "the whitelist fan-out lives in "+an.FuncName(fan)+", which requestHosts does not call directly")
+			fan = rh
+		}
 	}
 	if len(svcCalls) != 1 {
 		bad = append(bad, "expected exactly one reverse call in requestHosts, found "+itoa(len(svcCalls)))
@@ -330,10 +347,10 @@ func runC08(p *an.Prog, r *an.Run, tier string) {
 			bad = append(bad, "the reverse call is not vipnode_whitelist")
 		}
 		els, ok := variadicElems(a[3])
-		if !ok || len(els) != 1 || !p.Derives(0, els[0]).HasParam(idPrm) {
+		if !ok || len(els) != 1 || !p.DerivesIn(rh, 2, els[0]).HasParam(idPrm) {
 			bad = append(bad, "vipnode_whitelist is not called with exactly the requester's node id")
 		}
-		if p.Derives(0, a[0]).CallTo(func(f *types.Func) bool {
+		if p.DerivesIn(rh, 2, a[0]).CallTo(func(f *types.Func) bool {
 			return an.IsFunc(f, "context", "WithTimeout") || an.IsFunc(f, "context", "WithDeadline")
 		}) == nil {
 			bad = append(bad, "the whitelist call has no timeout: one silent host would block the whole reply")
@@ -367,7 +384,7 @@ func runC08(p *an.Prog, r *an.Run, tier string) {
 		}
 		// every goroutine sends exactly one result (accept or error) on all paths
 		gfn := c.Parent()
-		if gfn != rh {
+		if gfn != rh && gfn != fan {
 			n, _ := enumPaths(gfn, 256, func(path []*ssa.BasicBlock, ret *ssa.Return) {
 				cnt := 0
 				for _, b := range path {
@@ -386,7 +403,7 @@ func runC08(p *an.Prog, r *an.Run, tier string) {
 	}
 	// the accepted list is built only from accept-channel receives, and success is returned with it
 	var sel *ssa.Select
-	an.AllInstrs(rh, func(in ssa.Instruction) {
+	an.AllInstrs(fan, func(in ssa.Instruction) {
 		if s, ok := in.(*ssa.Select); ok {
 			sel = s
 		}
@@ -412,6 +429,25 @@ func runC08(p *an.Prog, r *an.Run, tier string) {
 		if !okBound {
 			bad = append(bad, "the collector does not wait for exactly len(candidates) results")
 		}
+		if fan != rh {
+			// the helper hands back what came off the accept channel, and nothing else
+			an.AllInstrs(fan, func(in ssa.Instruction) {
+				ret, ok := in.(*ssa.Return)
+				if !ok || len(ret.Results) == 0 || (fan.Recover != nil && ret.Block() == fan.Recover) {
+					return
+				}
+				d := p.Derives(0, an.RetResults(ret)[0])
+				okSrc := false
+				for _, n := range d.Nodes {
+					if ex, ok := n.(*ssa.Extract); ok && ex.Tuple == ssa.Value(sel) {
+						okSrc = true
+					}
+				}
+				if !okSrc {
+					bad = append(bad, "the list "+an.FuncName(fan)+" returns at "+p.Pos(ret.Pos())+" is not built from accept-channel receives")
+				}
+			})
+		}
 		an.AllInstrs(rh, func(in ssa.Instruction) {
 			ret, ok := in.(*ssa.Return)
 			if !ok {
@@ -419,13 +455,17 @@ func runC08(p *an.Prog, r *an.Run, tier string) {
 			}
 			rr := an.RetResults(ret)
 			cls, _ := returnClass(ret)
-			// "after whitelisting" = dominated by the creation of the accept channel
+			// "after whitelisting" = dominated by the creation of the accept channel (or by the call of the fan-out helper)
 			var mk ssa.Instruction
-			an.AllInstrs(rh, func(i2 ssa.Instruction) {
-				if mc, ok := i2.(*ssa.MakeChan); ok && isAcceptChan(mc) {
-					mk = mc
-				}
-			})
+			if fan != rh {
+				mk = fanCall.(ssa.Instruction)
+			} else {
+				an.AllInstrs(rh, func(i2 ssa.Instruction) {
+					if mc, ok := i2.(*ssa.MakeChan); ok && isAcceptChan(mc) {
+						mk = mc
+					}
+				})
+			}
 			if mk == nil || !an.Dominates(mk, ret) {
 				return
 			}
@@ -435,6 +475,9 @@ func runC08(p *an.Prog, r *an.Run, tier string) {
 				okSrc := false
 				for _, n := range d.Nodes {
 					if ex, ok := n.(*ssa.Extract); ok && ex.Tuple == ssa.Value(sel) {
+						okSrc = true
+					}
+					if ex, ok := n.(*ssa.Extract); ok && fan != rh && ex.Tuple == fanCall.Value() && ex.Index == 0 {
 						okSrc = true
 					}
 					if c, ok := n.(*ssa.Call); ok && isStoreMethodNamed(an.CallObj(c), "ActiveHosts") {
